@@ -50,6 +50,9 @@ Full statement / proved / missing
                          demands `UnstoredZero`; given_or_derived is optional (after the required ones, omitted when
                          undef).  Inconsistent tags are derivation errors the model reports by issue code (`deriveErr`,
                          regression anchors below); known finding `C18_given_or_derived_pointer`.
+* `C18_iface_field`     — a struct field that is itself an interface{}: nil is undef, anything else is kept verbatim in a
+                         Runtime value and comes back with its dynamic type (all widths, containers, nested
+                         []interface{} / map[string]interface{} data, typed nils); attribute type Any.
 * `C18_struct`         — the attribute-list form (tags `name=>`, `value=>` = declared default): `px.New(T, InitHash(wrap s))`, `px.New(T,
                          full hash)` (named dispatch → PositionalFromHash cuts trailing defaults → setValues puts them
                          back), `px.New(T, attribute values…)` and the same without the trailing defaults (positional
@@ -61,7 +64,9 @@ Full statement / proved / missing
   that are not registered or derived anonymously, the registry-mapped path, an embedded POINTER to a struct and fields
   that shadow a field of an embedded struct (two new known findings, implementation only), tag forms outside the
   grammar the driver reads (e.g. `type=>` with a type alias, Enum, Pattern …), non-puppet tags (annotations only),
-  a bare interface{} field (Runtime fall-back value), interface{} holding containers, map keys other
+  an interface{} field holding a struct, an interface{} holding containers that reaches `wrap`'s type switch (top level,
+  element of []interface{}, value of map[string]interface{}: what comes back has an INFERRED Go type — known findings
+  C18-iface-container-type, C18-iface-numeric-mix, ops `@refl` over JSON-like data), map keys other
   than integers / strings / booleans — all of these are only tested on the implementation (ops `@refl`/`@reflraw`/
   `@reflanon`/`@obj`/`@objreg`).
 -/
@@ -251,7 +256,7 @@ theorem C18_parent_accepts (S P : GoTy) (v : GoVal) (hs : isStruct S = true) (hp
     promotion and writing them back — the parent's into the embedded struct — is the identity on well-typed structs -/
 theorem C18_promotion (S : GoTy) (v : GoVal) (hs : isStruct S = true) (hv : hasType S v = true) :
     (flatVals S v).length = (attrsOf S).length ∧ (UnstoredZero S v → rebuild S (flatVals S v) = v) ∧
-    ∀ fv ∈ objFVs S v, hasType fv.1.ty fv.2 = true :=
+    ∀ fv ∈ objFVs S v, fieldHasType fv.1.ty fv.2 = true :=
   ⟨(obj_typed S v hv).1.symm, rebuild_flat S v hs hv, (obj_typed S v hv).2⟩
 
 /-- what a struct (type term and value) must satisfy for the object-type round trip: derivable (`structWF`: distinct
@@ -307,13 +312,37 @@ theorem C18_struct_nested (r32 : Nat → Nat) (hr : R32Exact r32) (S : GoTy) (v 
     `via = false`) gives the `inst` hypothesis of `StructOK0` -/
 theorem C18_attr_type_derived (n : String) (tg : FTag) (ft : GoTy) (v : GoVal)
     (h1 : tg.typ = none) (h2 : tg.kind ≠ .givenOrDerived) (h3 : tg.dflt ≠ some .undef)
-    (hm : Modelled ft = true) (hv : hasType ft v = true) (ht : TaOK false ft v = true) :
+    (hm : Modelled ft = true) (hv : fieldHasType ft v = true) (ht : TaOK false ft v = true) :
     (fieldOfDecl n tg ft).aty = typeOf ft ∧ inst (fieldOfDecl n tg ft).aty (fieldVal (fieldOfDecl n tg ft, v)) = true := by
   have ha : (fieldOfDecl n tg ft).aty = typeOf ft := by
     have hk : (tg.kind == Kind.givenOrDerived) = false := by simpa using h2
     have hd : (tg.dflt == some Lit.undef) = false := by simpa using h3
     simp [fieldOfDecl, tagType, h1, hk, hd]
   exact ⟨ha, accepts_of_TaOK (fv := (fieldOfDecl n tg ft, v)) ha hm hv ht⟩
+
+/-- a struct field that is itself an `interface{}`: whatever it holds — a scalar of ANY width, a slice, a map, nested
+    `[]interface{}` / `map[string]interface{}` data, a typed nil — is kept verbatim in a Runtime value and comes back with
+    its dynamic type (unlike an interface{} that reaches `wrap`'s type switch: `C18_iface_int_width`); nil is undef.
+    The attribute type is Any. -/
+theorem C18_iface_field (r32 : Nat → Nat) (v : GoVal) (h : ifaceField v = true) :
+    reflectTo r32 .iface (wrap false .iface v) = some v ∧ inst (typeOf .iface) (wrap false .iface v) = true := by
+  cases v <;> simp [ifaceField] at h <;> simp [wrap, reflectTo, typeOf, inst]
+
+/-- non-vacuity: `struct{ A interface{}; B interface{}; C interface{} }` holding `int8(5)`,
+    `[]interface{}{int64(1), map[string]interface{}{"k": nil}}` and nil -/
+def sampleIface : GoTy := .scons "A" {} .iface (.scons "B" {} .iface (.scons "C" {} .iface .snil))
+def sampleIfaceVal : GoVal :=
+  .st [.iface (.int 8) (.int 5),
+       .iface (.slice .iface) (.slice [.iface (.int 64) (.int 1), .iface (.map .string .iface) (.map [(.str "k", .nil)])]),
+       .nil]
+example : StructOK sampleIface sampleIfaceVal :=
+  ⟨⟨by decide, by decide, by decide,
+    fun fv h => fieldChk_ok (List.all_eq_true.mp (by decide : (objFVs sampleIface sampleIfaceVal).all fieldChk = true) fv h)⟩,
+   unstoredZero_of_allStored _ _ (by decide)⟩
+example : initHash (objFVs sampleIface sampleIfaceVal) =
+    [(.str "a", .rt (.int 8) (.int 5)),
+     (.str "b", .rt (.slice .iface) (.slice [.iface (.int 64) (.int 1), .iface (.map .string .iface) (.map [(.str "k", .nil)])])),
+     (.str "c", .undef)] := by rfl
 
 /-- `kind=>constant`: the field is not part of an instance's state — `struct{A int8 "kind=>constant, value=>5"; B string}`
     holding A = 5 comes back with A = 0 (the Go zero value; the harness marks such inputs n/a) -/
